@@ -164,6 +164,36 @@ theorem unknown_child_problem_recorded (env : Env) (hreg : CacheRegular env.cach
   refine ⟨t.path ++ [c], s, rfl, hchild, ?_⟩
   cases s <;> first | exact Or.inl hun | exact hun
 
+/-- **The cross-device fallback carries the caller's `replace` flag.** When a
+file is being *created* (`replace = false`) and something already sits at the
+target position — content that appeared after the scan at a path where the plan
+creates a file — the fallback (reached when the first rename reports a
+cross-device error) fails, and nothing but temporary files has changed. -/
+theorem crossDevice_never_replaces_on_create (env : Env)
+    (htmp : ∀ k l, isTemporaryName (env.tmpName k l) = true) (st : St) (key : Path × List UInt8) (sf : SFile)
+    (mode : Nat) (parent : Handle) (name : Name) (hname : isTemporaryName name = false) (r : Option String) (st' : St)
+    (h : crossDevice env st key sf mode parent name false = (r, st'))
+    (hex : sget st.fs (parent ++ [name]) ≠ none) : r ≠ none ∧ Unch st.fs st'.fs := by
+  obtain ⟨_, _, hfail, hok⟩ := crossDevice_eff env htmp st key sf mode parent name hname false r st' h
+  have hr : r ≠ none := by
+    intro hr
+    obtain ⟨_, _, _, _, _, _, hpre⟩ := hok hr
+    exact hex (hpre rfl)
+  exact ⟨hr, hfail hr⟩
+
+/-- The protection invariant through the cross-device branch, explicitly:
+every guarded position (content the plan does not expect, modified files,
+retargeted links) keeps its node across the whole fallback — temporary file,
+copy (preempted or not), permission change, second rename, clean-up — for
+every fault oracle, provided the target position is not guarded whenever the
+caller asked for replacement (`swapFile` establishes that with
+`ensureExpectedFile`; `createFile` never asks). -/
+theorem crossDevice_preserves_guarded (C : Ctx) (st : St) (key : Path × List UInt8) (sf : SFile) (mode : Nat)
+    (parent : Handle) (name : Name) (replace : Bool) (r : Option String) (st' : St) (hi : Inv C st.fs)
+    (hg : replace = true → ¬ G C (parent ++ [name]))
+    (h : crossDevice C.env st key sf mode parent name replace = (r, st')) : Inv C st'.fs :=
+  inv_crossDevice C st key sf mode parent name replace r st' hi hg h
+
 /-- Facts regenerated from the Go source that the model hard-codes: the
 permission mask (`mode % 512` in `opChmod` / `findAndMove`), the temporary
 name prefix a scan ignores, and the prefix of cross-device temporaries (which
@@ -171,8 +201,8 @@ must itself be a temporary name). A changed constant breaks this theorem. -/
 theorem transition_facts :
     Mutagen.Facts.transitionModePermissionsMask + 1 = 512 ∧
     Mutagen.Facts.transitionTemporaryNamePrefix = ".mutagen-temporary-" ∧
-    isTemporaryName tmpPattern = true := by
-  refine ⟨by decide, rfl, by decide +kernel⟩
+    isTemporaryName tmpPattern = true ∧ copyPreemptionBytes = 33554432 := by
+  refine ⟨by decide, rfl, by decide +kernel, by decide⟩
 
 /-- Non-vacuity: a file that is not in the cache survives a plan that deletes it. -/
 example :
